@@ -85,10 +85,11 @@ func cosmosCrashCase(prop string, c *Ctx, idx int) CaseResult {
 		res.Verdict, res.Note = "inconclusive", "no client writes recorded"
 		return res
 	}
-	// crash points: thorough (under C09/C10) = every client write; otherwise = the splits of a plan update (document patched, search
+	// crash points: thorough (under C09/C10) = every client write of runs with up to 48 writes, else every split plus a
+	// PRNG sample of 48; otherwise = the splits of a plan update (document patched, search
 	// entry not yet replaced) plus a PRNG sample of the others
 	var ks []int
-	if c.Tier == "thorough" && (prop == "C09" || prop == "C10") {
+	if c.Tier == "thorough" && (prop == "C09" || prop == "C10") && W <= 48 {
 		for k := 1; k <= W; k++ {
 			ks = append(ks, k)
 		}
@@ -101,13 +102,21 @@ func cosmosCrashCase(prop string, c *Ctx, idx int) CaseResult {
 			}
 		}
 		r.Shuffle(len(splits), func(a, b int) { splits[a], splits[b] = splits[b], splits[a] })
+		maxSplits := 6
+		if c.Tier == "thorough" && (prop == "C09" || prop == "C10") {
+			maxSplits = 24
+		}
 		for _, k := range splits {
-			if len(ks) < 6 {
+			if len(ks) < maxSplits {
 				ks = append(ks, k)
 				seen[k] = true
 			}
 		}
-		for len(ks) < min(12, W) {
+		want := 12
+		if c.Tier == "thorough" && (prop == "C09" || prop == "C10") {
+			want = 48 // every split plus a PRNG sample: one cut costs seconds on the fake
+		}
+		for len(ks) < min(want, W) {
 			k := 1 + r.Intn(W)
 			if !seen[k] {
 				seen[k] = true
